@@ -33,7 +33,7 @@ fn laws<T: DoubleOps>(a: &T, b: &T, c: &T) {
 }
 
 #[kani::proof]
-#[kani::unwind(66)]
+#[kani::unwind(10)]
 fn c14_f64_laws() {
     let a: f64 = kani::any();
     let b: f64 = kani::any();
@@ -57,7 +57,7 @@ fn c14_f64_laws() {
 }
 
 #[kani::proof]
-#[kani::unwind(66)]
+#[kani::unwind(10)]
 fn c14_double_key_laws() {
     let a = DoubleKey(kani::any());
     let b = DoubleKey(kani::any());
@@ -85,7 +85,7 @@ fn c14_double_key_laws() {
 }
 
 #[kani::proof]
-#[kani::unwind(66)]
+#[kani::unwind(10)]
 fn c14_option_f64_laws() {
     let a: Option<f64> = kani::any();
     let b: Option<f64> = kani::any();
@@ -109,7 +109,7 @@ fn any_vec(max: usize) -> Vec<f64> {
 }
 
 #[kani::proof]
-#[kani::unwind(66)]
+#[kani::unwind(10)]
 fn c14_vec_f64_laws_len2() {
     let a = any_vec(2);
     let b = any_vec(2);
@@ -122,7 +122,7 @@ fn c14_vec_f64_laws_len2() {
 }
 
 #[kani::proof]
-#[kani::unwind(66)]
+#[kani::unwind(10)]
 fn c14_option_vec_f64_laws_len1() {
     let mk = || -> Option<Vec<f64>> {
         if kani::any() {
